@@ -15,6 +15,7 @@ import (
 	"github.com/AdguardTeam/AdGuardDNS/internal/agd"
 	"github.com/AdguardTeam/AdGuardDNS/internal/agdcache"
 	"github.com/AdguardTeam/AdGuardDNS/internal/agdtest"
+	"github.com/AdguardTeam/AdGuardDNS/internal/dnsmsg"
 	"github.com/AdguardTeam/AdGuardDNS/internal/dnsserver"
 	"github.com/AdguardTeam/AdGuardDNS/internal/dnsserver/cache"
 	"github.com/AdguardTeam/AdGuardDNS/internal/ecscache"
@@ -45,14 +46,23 @@ type instance struct {
 	cfg cfg
 	up  *upstream
 	h   dnsserver.Handler
+
+	// cloner, if dispose is set, receives every written response after its
+	// canonical form has been taken, like the servers' Disposer.
+	cloner  *dnsmsg.Cloner
+	dispose bool
 }
 
-func newInstance(c cfg, count int) *instance {
+func newInstance(c cfg, count int) *instance { return newInstanceWith(c, count, agdtest.NewCloner()) }
+
+// newInstanceWith builds a cache middleware that uses the given cloner (the
+// simple cache has no use for one).
+func newInstanceWith(c cfg, count int, cloner *dnsmsg.Cloner) *instance {
 	up := newUpstream()
 	var mw dnsserver.Middleware
 	if c.ecs() {
 		mw = ecscache.NewMiddleware(&ecscache.MiddlewareConfig{
-			Cloner:       agdtest.NewCloner(),
+			Cloner:       cloner,
 			Logger:       slogutil.NewDiscardLogger(),
 			CacheManager: agdcache.EmptyManager{},
 			GeoIP:        geoFake{},
@@ -68,7 +78,7 @@ func newInstance(c cfg, count int) *instance {
 			OverrideTTL: c.Override,
 		})
 	}
-	return &instance{cfg: c, up: up, h: mw.Wrap(up)}
+	return &instance{cfg: c, up: up, h: mw.Wrap(up), cloner: cloner}
 }
 
 type recWriter struct {
@@ -118,6 +128,10 @@ func (in *instance) do(q query, id uint16) *probe {
 	}()
 	p.Resp = rw.resp
 	p.C = canonOf(p.Resp, in.cfg.ecs())
+	if in.dispose {
+		in.cloner.Dispose(p.Resp)
+		p.Resp = nil
+	}
 	return p
 }
 
